@@ -3,7 +3,9 @@
 
 Alphabet : -C<name>=<value> for 3 options x 2 legal values, one illegal value per option, an
            unknown name, three names that are attributes but not options, malformed forms
-           (-Cunparser, -Ca=b=c, -C=, -Cunparser=oneliner=x), --unparser {ast.unparse, oneliner, bogus}
+           (-Cunparser, -Ca=b=c, -C=, -Cunparser=oneliner=x), --unparser {ast.unparse, oneliner, bogus};
+           plus, in histories of length 1 and 2 only, -C<attr>=x for EVERY attribute name of the real
+           options object/class other than the three options (read from the code under check)
 Histories: every argument sequence of length <= 2 (quick) / <= 3 (thorough)
            x output mode {stdout, -o absent file, -o pre-existing file with sentinel content}
            x a pool of 4 input files (plain, non-ASCII, control flow, unconvertible script).
@@ -66,6 +68,25 @@ def alphabet():
         A.append(("--unparser " + v, ["--unparser", v], ("unparser", v)))
     A.append(("--unparser bogus", ["--unparser", "bogus"], ("error",)))
     return A
+
+
+def wide_alphabet():
+    """Every attribute name of the real options object (read from the code under check) that is not one of the three
+    options, as `-C<name>=x`: none of them is an option, and `x` is a legal value of no option, so each must be an
+    error whatever the implementation's own list of option names says.  Used in histories of length 1 and 2 only."""
+    core.ol()
+    import oneliner.config as cfgmod
+
+    names = set(dir(cfgmod.Configs)) | set(dir(cfgmod.Configs()))
+    done = {a[0] for a in alphabet()}
+    out = []
+    for n in sorted(names):
+        if n in OPTIONS or "=" in n:
+            continue
+        lab = "-C%s=x" % n
+        if lab not in done:
+            out.append((lab, [lab], ("error",)))
+    return out
 
 
 def model(seq):
@@ -220,6 +241,11 @@ def cases(tier):
             for f in files:
                 for m in modes:
                     out.append((f, seq, m))
+    legal = A[0]
+    for w in wide_alphabet():
+        for seq in ((w,), (legal, w), (w, legal)):
+            for m in ("absent", "existing"):
+                out.append(("flow.py", seq, m))
     return out
 
 
@@ -269,6 +295,7 @@ def main(tier, seed, collect=None):
             "non-trivial = at least one option argument; states = distinct reference-model states (option vectors + error)",
             "exhaustive": True,
             "alphabet": [a[0] for a in alphabet()],
+            "attribute_name_alphabet_(histories_of_length_1_and_2)": [a[0] for a in wide_alphabet()],
             "max_history_length": 2 if tier == "quick" else 3,
             "files": list(FILES),
             "api_references_from_fresh_processes": nref,
@@ -287,7 +314,7 @@ def replay(payload):
     if "argv" not in ex:
         print("API-level failure, rerun the check:", payload.get("key"), payload.get("detail"))
         return 1
-    A = {a[0].replace(" ", "_"): a for a in alphabet()}
+    A = {a[0].replace(" ", "_"): a for a in alphabet() + wide_alphabet()}
     labels = payload["key"].split(":[", 1)[1][:-1].split()
     seq = tuple(A[l] for l in labels)
     workdir = tempfile.mkdtemp(prefix="vf-c16-", dir="/var/tmp")
